@@ -32,7 +32,17 @@ def build(ctx):
                        'Symbol::intern(text).as_str() = text']
     rp = make_replay(ctx)
     part_recognisers(ctx, eng, rp)
-    part_generated_marker(ctx, eng, rp)
+    try:
+        mark = len(ctx.obls)
+        part_generated_marker(ctx, eng, rp)
+    except (Unsupported, Inconclusive) as e_:
+        # the function is not written over lines().take(limit).any(contains): decide it as a whole over symbolic short texts instead
+        del ctx.obls[mark:]
+        eng.stubs = []
+        eng.lenient = False
+        eng.inline_only = None
+        ctx.notes.append('is_generated_file is not a lines / take / any chain (%s): decided as a whole function over texts of up to %d characters' % (str(e_)[:80], 4 if ctx.tier == 'quick' else 5))
+        part_generated_whole(ctx, eng, rp, 4 if ctx.tier == 'quick' else 5)
     part_module_gate(ctx, eng, rp)
     part_disable_all(ctx, eng, rp)
     import resolvermodel
@@ -202,6 +212,54 @@ def part_generated_marker(ctx, eng, rp):
     eng.stubs = []
     eng.lenient = False
     eng.inline_only = None
+
+
+def part_generated_whole(ctx, eng, rp, N):
+    """is_generated_file over symbolic texts of every length 0..N whose characters are arbitrary ASCII, with the marker "@generated" represented
+    by one reserved character (strmodel.py): true iff one of the first `limit` lines (str::lines) contains the marker."""
+    import strmodel
+    igf = eng.find('is_generated_file', free=True)
+    MARK, LF = 1, 10
+    nob = 0
+    eng.lenient = True
+    eng.inline_only = [re.compile(r'is_generated_file'), re.compile(r'src/config/config_type\.rs'), re.compile(r'^Config::')]
+    try:
+        for n in range(0, N + 1):
+            for limit in range(0, 4):
+                eng.stubs = []
+                M = strmodel.Model(eng, atoms={'@generated': MARK})
+                M.install()
+                text = strmodel.sym_text(n)
+                st = State()
+                for c_ in text.items:
+                    st.assume(z3.And(z3.UGE(c_.e, 1), z3.ULT(c_.e, 128), c_.e != 13))
+                cfgref, cv = make_config(eng, st, values={'generated_marker_line_search_limit': bv_const(limit, 'usize')})
+                arg = eng.ref_to(st, text, False, 'original_snippet')
+                outs = ctx.check_outcomes(eng.run(igf, [arg, Ref(cfgref.key, cfgref.projs, False)], st), 'is_generated_file(whole)')
+                cs = list(text.items)
+                mv = [c_.e for c_ in cs]
+                for pi, o in enumerate(outs):
+                    tag = 'generated-whole/n%d/limit%d/p%d' % (n, limit, pi)
+                    if o.kind != 'ret':
+                        ctx.prop(tag + '/no-panic', o.state.pc, z3.BoolVal(True), mv, rp, twin=False)
+                        continue
+                    for (s1, lf) in M.fork_mask(eng, o.state.fork(), cs, lambda ch: ch.e == LF):
+                        # line index of every character under this placement of the line feeds
+                        line_of, k = [], 0
+                        for i in range(n):
+                            line_of.append(k)
+                            if lf[i]:
+                                k += 1
+                        want = z3.Or([z3.And(cs[i].e == MARK) for i in range(n) if line_of[i] < limit and not lf[i]] or [z3.BoolVal(False)])
+                        nob += 1
+                        got = o.value if z3.is_bool(o.value) else (o.value.e != 0)
+                        ctx.prop(tag + '/c%d/iff-the-marker-is-on-one-of-the-first-limit-lines' % nob, s1.pc, got != want, mv, rp, twin=False)
+    finally:
+        eng.stubs = []
+        eng.lenient = False
+        eng.inline_only = None
+    if not nob:
+        raise Inconclusive('is_generated_file(whole): nothing explored')
 
 
 def part_module_gate(ctx, eng, rp):
